@@ -10,9 +10,9 @@ Mirrors (pinned commit of /repo):
                                               visit_is_null, visit_not, maybe_range, visit_and, visit_or),
                                               apply_scalar_indices, ScalarIndexExpr::evaluate (through C21's tables)
   rust/lance-index/src/scalar/flat.rs         FlatIndex::search (the BTree's pages) — `SQ.hits`
-  rust/lance-index/src/scalar/btree.rs        BTreeIndex::search = union over the candidate pages of the page search;
-                                              BTreeLookup::{pages_eq, pages_in, pages_between, pages_null} — `Page`, `pagesFor`
-  rust/lance-index/src/scalar/bitmap.rs       BitmapIndex::search (per-key bitmaps, null_map) — `SQ.hits` + `bitmapRangeOk`
+  rust/lance-index/src/scalar/btree.rs        BTreeIndex::search = union over the candidate pages of the page search (the page
+                                              pruning of BTreeLookup is not modelled: a leaf search is the set of matching entries)
+  rust/lance-index/src/scalar/bitmap.rs       BitmapIndex::search (per-key bitmaps, null_map; an inverted / empty range selects no key) — `SQ.hits`
   rust/lance/src/io/exec/scalar_index.rs      ScalarIndexExec::fragments_covered_by_index_query — `covered`
   rust/lance/src/io/exec/filtered_read.rs     FilteredReadExec::{plan_scan, apply_index_to_fragment}: per fragment, an
                                               applicable fragment reads the rows the mask selects and applies the refine
@@ -160,8 +160,8 @@ def rangeBounds : Cmp → Cmp → Int → Int → Option (Bd × Bd)
   | .gt, .le, a, b => some (.excl a, .incl b)
   | .gt, .lt, a, b => some (.excl a, .excl b)
   | .le, .ge, a, b => some (.incl b, .incl a)
-  | .le, .gt, a, b => some (.incl b, .excl a)
-  | .lt, .ge, a, b => some (.excl b, .incl a)
+  | .le, .gt, a, b => some (.excl b, .incl a)
+  | .lt, .ge, a, b => some (.incl b, .excl a)
   | .lt, .gt, a, b => some (.excl b, .excl a)
   | _, _, _, _ => none
 
@@ -252,19 +252,6 @@ def St.index (s : St) (c : Nat) : Option Idx :=
 
 def St.ix (s : St) (c : Nat) : Bool := (s.index c).isSome
 
-/-- BitmapIndex::search hands the bounds to `BTreeMap::range`, which panics on an inverted range and on an empty
-    range with two excluded equal bounds -/
-def bitmapRangeOk : Bd → Bd → Bool
-  | .excl a, .excl b => decide (a < b)
-  | .incl a, .incl b => decide (a ≤ b)
-  | .incl a, .excl b => decide (a ≤ b)
-  | .excl a, .incl b => decide (a ≤ b)
-  | _, _ => true
-
-def SQ.panics (k : Kind) : SQ → Bool
-  | .range lo hi => k == .bitmap && !bitmapRangeOk lo hi
-  | _ => false
-
 /-- `ScalarIndex::search`: the addresses of the entries whose key the query hits -/
 def Idx.search (i : Idx) (q : SQ) : List Nat :=
   (i.entries.filter (fun e => q.hits e.1)).map (·.2)
@@ -275,7 +262,6 @@ def leafRes (addrs : List Nat) : C21.Res :=
 
 inductive EvalErr where
   | noIndex
-  | panic
   deriving DecidableEq, Repr
 
 /-- ScalarIndexExpr with the leaf searches done: C21's expression type -/
@@ -283,7 +269,7 @@ def toC21 (s : St) : IExpr → Except EvalErr C21.Expr
   | .query c q =>
     match s.index c with
     | none => .error .noIndex
-    | some i => if q.panics i.kind then .error .panic else .ok (.leaf (leafRes (i.search q)))
+    | some i => .ok (.leaf (leafRes (i.search q)))
   | .not e =>
     match toC21 s e with
     | .ok x => .ok (.not x)
@@ -329,10 +315,6 @@ def readRow (res : C21.Res) (cov : List Nat) (refine : Option Expr) (full : Expr
     | .atLeast _ => isTrue full p.2
   else isTrue full p.2
 
-inductive ScanErr where
-  | eval (e : EvalErr)
-  deriving DecidableEq, Repr
-
 /-- scan with `use_scalar_index(true)` -/
 def scanIndexed (s : St) (full : Expr) : Except EvalErr (List (Nat × Row)) :=
   match (applyScalarIndices s.ix full).sq with
@@ -364,7 +346,12 @@ def Idx.remap (i : Idx) (m : List (Nat × Option Nat)) (olds news : List Nat) : 
 def entriesOf (rows : List (Nat × Row)) (c : Nat) (fs : List Nat) : List (Cell × Nat) :=
   (rows.filter (fun p => fs.contains (fragOf p.1))).map (fun p => (cellAt p.2 c, p.1))
 
-def fragsOf (rows : List (Nat × Row)) : List Nat := (rows.map (fun p => fragOf p.1)).eraseDups
+def dedupNat : List Nat → List Nat
+  | [] => []
+  | a :: t => if (dedupNat t).contains a then dedupNat t else a :: dedupNat t
+
+/-- ids of the fragments of the table -/
+def fragsOf (rows : List (Nat × Row)) : List Nat := dedupNat (rows.map (fun p => fragOf p.1))
 
 inductive Op where
   /-- Dataset::write(Append): the new rows with their (fresh) addresses -/
@@ -384,38 +371,61 @@ inductive Op where
 
 def setCell (r : Row) (c : Nat) (v : Cell) : Row := r.set c v
 
+/-- no address twice -/
+def nodupB : List Nat → Bool
+  | [] => true
+  | a :: t => !t.contains a && nodupB t
+
 /-- the side conditions under which `append` is what the real operation does: fresh fragments -/
 def freshFrags (s : St) (new : List (Nat × Row)) : Bool :=
   new.all (fun p => !s.hasFrag (fragOf p.1) &&
     s.idxs.all (fun i => !i.frags.contains (fragOf p.1) && i.entries.all (fun e => fragOf e.2 != fragOf p.1)))
-  && (new.map (·.1)).eraseDups.length == new.length
+  && nodupB (new.map (·.1))
 
 def St.appendRows (s : St) (new : List (Nat × Row)) : St := { s with rows := s.rows ++ new }
 
 def St.deleteWhere (s : St) (p : Expr) : St := { s with rows := s.rows.filter (fun q => !isTrue p q.2) }
 
-def compactOk (s : St) (olds news : List Nat) (m : List (Nat × Option Nat)) : Bool :=
-  -- every live row of an old fragment is moved into a new fragment
+/-- every live row of an old fragment is moved into a new fragment -/
+def ckMoved (s : St) (olds news : List Nat) (m : List (Nat × Option Nat)) : Bool :=
   s.rows.all (fun p => !olds.contains (fragOf p.1) ||
     (match m.lookup p.1 with
      | some (some a) => news.contains (fragOf a)
      | _ => false))
-  -- the map only talks about the old fragments and only targets the new ones
-  && m.all (fun e => olds.contains (fragOf e.1) &&
-      (match e.2 with
-       | some a => news.contains (fragOf a)
-       | none => true))
-  -- distinct sources, distinct targets
-  && (m.map (·.1)).eraseDups.length == m.length
-  && ((m.filterMap (·.2)).eraseDups.length == (m.filterMap (·.2)).length)
-  -- the new fragments are fresh
-  && news.all (fun f => !olds.contains f && !s.hasFrag f &&
-      s.idxs.all (fun i => !i.frags.contains f && i.entries.all (fun e => fragOf e.2 != f)))
-  -- plan_compaction never bins fragments with different index coverage together
-  && s.idxs.all (fun i => olds.all i.frags.contains || olds.all (fun f => !i.frags.contains f))
 
+/-- the map only talks about the old fragments and only targets the new ones -/
+def ckKeys (olds news : List Nat) (m : List (Nat × Option Nat)) : Bool :=
+  m.all (fun e => olds.contains (fragOf e.1) &&
+    (match e.2 with
+     | some a => news.contains (fragOf a)
+     | none => true))
+
+/-- the new fragments are fresh -/
+def ckFresh (s : St) (olds news : List Nat) : Bool :=
+  news.all (fun f => !olds.contains f && !s.hasFrag f &&
+    s.idxs.all (fun i => !i.frags.contains f && i.entries.all (fun e => fragOf e.2 != f)))
+
+/-- plan_compaction never bins fragments with different index coverage together -/
+def ckBins (s : St) (olds : List Nat) : Bool :=
+  s.idxs.all (fun i => olds.all i.frags.contains || olds.all (fun f => !i.frags.contains f))
+
+/-- the map covers every physical row of the old fragments the indices know -/
+def ckKnown (s : St) (olds : List Nat) (m : List (Nat × Option Nat)) : Bool :=
+  s.idxs.all (fun i => i.entries.all (fun e => !olds.contains (fragOf e.2) || (m.lookup e.2).isSome))
+
+def compactOk (s : St) (olds news : List Nat) (m : List (Nat × Option Nat)) : Bool :=
+  ckMoved s olds news m && ckKeys olds news m && nodupB (m.filterMap (·.2)) && ckFresh s olds news
+    && ckBins s olds && ckKnown s olds m
+
+def insertRow (x : Nat × Row) : List (Nat × Row) → List (Nat × Row)
+  | [] => [x]
+  | y :: t => if x.1 ≤ y.1 then x :: y :: t else y :: insertRow x t
+
+def sortRows (l : List (Nat × Row)) : List (Nat × Row) := l.foldr insertRow []
+
+/-- the new manifest lists the fragments by id (`final_fragments.sort_by_key(id)`): scan order is address order -/
 def St.compact (s : St) (olds news : List Nat) (m : List (Nat × Option Nat)) : St :=
-  { rows := s.rows.filterMap (fun p => (remapAddr m p.1).map (fun a => (a, p.2))),
+  { rows := sortRows (s.rows.filterMap (fun p => (remapAddr m p.1).map (fun a => (a, p.2)))),
     idxs := s.idxs.map (fun i => i.remap m olds news) }
 
 def St.createIndex (s : St) (c : Nat) (k : Kind) : St :=
